@@ -95,7 +95,7 @@ var Metas = map[string]*Meta{
 			"EINTR is not in the error palette: a reader may legitimately retry it",
 		},
 		Components: map[string]any{"real": realCommon, "simulated_environment": []string{"io.Reader (sim.Stream: delivery plan + fault)", "io.Writer (sim.Sink: acceptance plan)", "consumer that keeps iterating past errors", "storage: scratch directory on the real file system (directory-as-path, torn .gz)"}, "stubbed": []string{}},
-		Runs:       map[string]int{"quick": 10000, "thorough": 200000},
+		Runs:       map[string]int{"quick": 10000, "thorough": 150000},
 		Run:        RunC07,
 	},
 }
